@@ -49,7 +49,7 @@ def scenarios(run):
             for comp in comps:
                 add(Q.cfg("stream", Q.S("hdr", "eos"), plan=h, init_rows=ir), compression=comp)
             # blocks big enough for the zero-copy path to matter (a column chunk of several hundred bytes)
-            add(Q.cfg("stream", Q.S("hdr", "eos"), plan=h, init_rows=ir), compression="disabled", rows_per=[24, 40, 130][nh % 3])
+            add(Q.cfg("stream", Q.S("hdr", "eos"), plan=h, init_rows=ir), compression="disabled", rows_per=[24, 40, 130, 17][nh % 4])
         if nh % 3 == run.seed % 3:
             add(Q.cfg("stream", Q.S("hdr", "prog", "eos"), plan=h, init_rows=rng.choice([0, 1]), need_info=False),
                 compression=rng.choice(Q.COMPRESSIONS), sched=Q.random_sched(rng, 12, letters="SSSRRVVT", p_cancel=0))
